@@ -21,7 +21,18 @@ From RB Require Import Base.Val Model.Deferral.
 Import ListNotations.
 Open Scope N_scope.
 
-Record path := { pa_peer : N; pa_id : N; pa_filtered : bool }.
+(* pa_nh: the next hop (0 = none); pa_nhinv: FLAG_NEXTHOP_INVALID; pa_stale: Source.stale (the
+   harness gives every (peer, family) a new Source after a restale, as a new session does) *)
+Record path := { pa_peer : N; pa_id : N; pa_filtered : bool; pa_nh : N; pa_nhinv : bool; pa_stale : bool }.
+
+Definition mk_path (peer pid : N) (filtered : bool) (nh : N) (nhinv : bool) : path :=
+  {| pa_peer := peer; pa_id := pid; pa_filtered := filtered; pa_nh := nh; pa_nhinv := nhinv; pa_stale := false |}.
+Definition set_stale (p : path) : path :=
+  {| pa_peer := pa_peer p; pa_id := pa_id p; pa_filtered := pa_filtered p; pa_nh := pa_nh p;
+     pa_nhinv := pa_nhinv p; pa_stale := true |}.
+Definition set_nhinv (p : path) (b : bool) : path :=
+  {| pa_peer := pa_peer p; pa_id := pa_id p; pa_filtered := pa_filtered p; pa_nh := pa_nh p;
+     pa_nhinv := b; pa_stale := pa_stale p |}.
 
 Record ribf := { rf_deferring : bool; rf_dests : list (N * list path) }.
 
@@ -55,22 +66,28 @@ Fixpoint d_set (l : list (N * list path)) (n : N) (v : list path) : list (N * li
 
 Definition same_path (peer pid : N) (p : path) : bool := (pa_peer p =? peer) && (pa_id p =? pid).
 
-Definition unfiltered (l : list path) : list path := filter (fun p => negb (pa_filtered p)) l.
+(* Destination::unfiltered_iter: neither filtered by import policy nor next-hop-invalid *)
+Definition eligible (p : path) : bool := negb (pa_filtered p) && negb (pa_nhinv p).
+Definition unfiltered (l : list path) : list path := filter eligible l.
 
 Definition n_unfiltered (l : list path) : N := N.of_nat (length (unfiltered l)).
 
 Inductive tabop :=
 | TStart (f : fam)
-| TInsert (f : fam) (net peer pid : N) (filtered : bool)
+| TInsert (f : fam) (net peer pid : N) (filtered : bool) (nh : N) (nhinv : bool)
 | TEnd (f : fam)
 | TRemove (f : fam) (net peer pid : N)      (* Table::remove: a withdrawal *)
-| TDrop (f : fam) (peer : N).               (* Table::drop: the peer's session ended *)
+| TDrop (f : fam) (peer : N)                (* Table::drop: the peer's session ended *)
+| TRestale (f : fam) (peer : N)             (* Table::restale: the peer's paths become stale *)
+| TDropStale (f : fam) (peer : N)           (* Table::drop_stale *)
+| TNhValid (nh : N) (reachable : bool).     (* Table::update_nexthop_validity, every family *)
 
 Inductive tabres :=
 | RUnit
 | RNoChange
 | RChanged (net npaths : N)
-| RChanges (l : list (N * N)).
+| RChanges (l : list (N * N))
+| RChangesF (l : list (fam * N * N)).
 
 (* Table::start_deferral *)
 Definition t_start (t : table) (f : fam) : table :=
@@ -80,22 +97,23 @@ Definition t_start (t : table) (f : fam) : table :=
   end.
 
 (* Table::insert (slice) *)
-Definition t_insert (t : table) (f : fam) (net peer pid : N) (filtered : bool) : table * tabres :=
+Definition t_insert (t : table) (f : fam) (net peer pid : N) (filtered : bool) (nh : N) (nhinv : bool)
+  : table * tabres :=
   let r := match t_get t f with Some r => r | None => rib_new end in
   let old := match d_get (rf_dests r) net with Some l => l | None => [] end in
   let replaced_unfiltered := existsb (fun p => same_path peer pid p && negb (pa_filtered p)) old in
   let kept := filter (fun p => negb (same_path peer pid p)) old in
-  let new := kept ++ [{| pa_peer := peer; pa_id := pid; pa_filtered := filtered |}] in
+  let new := kept ++ [mk_path peer pid filtered nh nhinv] in
   let r' := {| rf_deferring := rf_deferring r; rf_dests := d_set (rf_dests r) net new |} in
   let t' := t_set t f r' in
   if rf_deferring r then (t', RNoChange)
   else if negb filtered || replaced_unfiltered then (t', RChanged net (n_unfiltered new))
        else (t', RNoChange).
 
-(* collect_loc_rib_paths: one change per destination that has an unfiltered path *)
+(* end_deferral reports every destination of the family, also one left without an eligible path
+   (count 0) *)
 Definition loc_rib (r : ribf) : list (N * N) :=
-  flat_map (fun e => match unfiltered (snd e) with [] => [] | _ => [(fst e, n_unfiltered (snd e))] end)
-           (rf_dests r).
+  map (fun e => (fst e, n_unfiltered (snd e))) (rf_dests r).
 
 (* Table::end_deferral *)
 Definition t_end (t : table) (f : fam) : table * list (N * N) :=
@@ -134,7 +152,7 @@ Definition t_drop (t : table) (f : fam) (peer : N) : table * tabres :=
   | Some r =>
       let of_peer := fun p : path => pa_peer p =? peer in
       let changes :=
-        flat_map (fun e => if existsb (fun p => of_peer p && negb (pa_filtered p)) (snd e)
+        flat_map (fun e => if existsb (fun p => of_peer p && eligible p) (snd e)
                            then [(fst e, n_unfiltered (filter (fun p => negb (of_peer p)) (snd e)))] else [])
                  (rf_dests r) in
       let dests :=
@@ -147,13 +165,65 @@ Definition t_drop (t : table) (f : fam) (peer : N) : table * tabres :=
        RChanges (if rf_deferring r then [] else changes))
   end.
 
+(* Table::restale (slice): the peer's paths are marked; one change per destination in which the
+   peer has an unfiltered path (best_changed alone cannot occur without ties in the order) *)
+Definition t_restale (t : table) (f : fam) (peer : N) : table * tabres :=
+  match t_get t f with
+  | None => (t, RChanges [])
+  | Some r =>
+      let of_peer := fun p : path => pa_peer p =? peer in
+      let changes :=
+        flat_map (fun e => if existsb (fun p => of_peer p && negb (pa_filtered p)) (snd e)
+                           then [(fst e, n_unfiltered (snd e))] else []) (rf_dests r) in
+      let dests := map (fun e => (fst e, map (fun p => if of_peer p then set_stale p else p) (snd e))) (rf_dests r) in
+      (t_set t f {| rf_deferring := rf_deferring r; rf_dests := dests |},
+       RChanges (if rf_deferring r then [] else changes))
+  end.
+
+(* Table::drop_stale (slice) *)
+Definition t_drop_stale (t : table) (f : fam) (peer : N) : table * tabres :=
+  match t_get t f with
+  | None => (t, RChanges [])
+  | Some r =>
+      let sel := fun p : path => (pa_peer p =? peer) && pa_stale p in
+      let changes :=
+        flat_map (fun e => if existsb (fun p => sel p && eligible p) (snd e)
+                           then [(fst e, n_unfiltered (filter (fun p => negb (sel p)) (snd e)))] else [])
+                 (rf_dests r) in
+      let dests :=
+        flat_map (fun e => match filter (fun p => negb (sel p)) (snd e) with
+                           | [] => []
+                           | l => [(fst e, l)]
+                           end) (rf_dests r) in
+      (t_set t f {| rf_deferring := rf_deferring r; rf_dests := dests |},
+       RChanges (if rf_deferring r then [] else changes))
+  end.
+
+(* Table::update_nexthop_validity (slice): every family; one change per destination in which
+   a flag flipped, none for a deferring family *)
+Definition nh_flip (nh : N) (reachable : bool) (p : path) : path :=
+  if (pa_nh p =? nh) && negb (nh =? 0) then set_nhinv p (negb reachable) else p.
+Definition nh_hit (nh : N) (reachable : bool) (p : path) : bool :=
+  (pa_nh p =? nh) && negb (nh =? 0) && negb (Bool.eqb (pa_nhinv p) (negb reachable)).
+Definition t_nhvalid (t : table) (nh : N) (reachable : bool) : table * tabres :=
+  (map (fun kr => (fst kr, {| rf_deferring := rf_deferring (snd kr);
+                              rf_dests := map (fun e => (fst e, map (nh_flip nh reachable) (snd e))) (rf_dests (snd kr)) |})) t,
+   RChangesF (flat_map (fun kr =>
+                if rf_deferring (snd kr) then []
+                else flat_map (fun e => if existsb (nh_hit nh reachable) (snd e)
+                                        then [(fst kr, fst e, n_unfiltered (map (nh_flip nh reachable) (snd e)))]
+                                        else []) (rf_dests (snd kr))) t)).
+
 Definition t_step (t : table) (o : tabop) : table * tabres :=
   match o with
   | TStart f => (t_start t f, RUnit)
-  | TInsert f net peer pid filtered => t_insert t f net peer pid filtered
+  | TInsert f net peer pid filtered nh nhinv => t_insert t f net peer pid filtered nh nhinv
   | TEnd f => let '(t', l) := t_end t f in (t', RChanges l)
   | TRemove f net peer pid => t_remove t f net peer pid
   | TDrop f peer => t_drop t f peer
+  | TRestale f peer => t_restale t f peer
+  | TDropStale f peer => t_drop_stale t f peer
+  | TNhValid nh reachable => t_nhvalid t nh reachable
   end.
 
 Definition t_deferring (t : table) (f : fam) : bool :=
@@ -230,7 +300,7 @@ Definition sys_step (s : sys) (e : sysev) : sys :=
       | None => s
       end
   | EvInsert f net peer pid filtered =>
-      let '(t', res) := t_insert (sys_tab s) f net peer pid filtered in
+      let '(t', res) := t_insert (sys_tab s) f net peer pid filtered 0 false in
       {| sys_rd := sys_rd s; sys_timer := sys_timer s; sys_tab := t';
          sys_log := match res with RChanged n k => sys_log s ++ [AnnInsert f n k] | _ => sys_log s end |}
   end.
@@ -245,13 +315,15 @@ Definition v_tabres (r : tabres) : val :=
   | RNoChange => VL [VN 0]
   | RChanged n k => VL [VN 1; VN n; VN k]
   | RChanges l => VL [VN 2; VList VPairN l]
+  | RChangesF l => VL [VN 3; VList (fun x => VL [VN (fst (fst x)); VN (snd (fst x)); VN (snd x)]) l]
   end.
 
 Fixpoint observe_tab (t : table) (ops : list tabop) : list val :=
   match ops with
   | [] => []
   | o :: r => let '(t', res) := t_step t o in
-              VL [v_tabres res; VB (match o with TStart f | TInsert f _ _ _ _ | TEnd f | TRemove f _ _ _ | TDrop f _ => t_deferring t' f end)]
+              VL [v_tabres res; VB (match o with TStart f | TInsert f _ _ _ _ _ _ | TEnd f | TRemove f _ _ _ | TDrop f _ | TRestale f _
+                                  | TDropStale f _ => t_deferring t' f | TNhValid _ _ => false end)]
                 :: observe_tab t' r
   end.
 
